@@ -58,7 +58,15 @@ CHECKS = {
             ["whole-operation specification written from the Z80 documentation"]),
 }
 
-PENDING = ["C10", "C12", "C13", "C18"]
+CHECKS["C12"] = ("exploration",
+                 "Fault injection on the environment: arbitrary byte strings with a high density of prefixes / HALT / I/O opcodes and prefix chains cut off at 0xFFFF, arbitrary register files, IM in {0,1,2,3,-1,7,255,2^31..2^40}, the library's own DumbMemory of length 0..65536, sparse MapMemory, nil IO, short DumbIO, malformed Interrupt values (unknown types, nil/empty/1-4 byte/70000-byte data, prefix-only data, HALT or I/O as mode-0 instruction) raised at Step boundaries and from inside device accesses (also while an acceptance is in progress). Oracles: no panic in any Step or Run; Run returns at the Step in which a Step-driven twin in an identical environment shows an executed HALT or a breakpoint (else it is ended by cancellation); a Step that logged the invalid-code warning made sequential fetches only, advanced PC by exactly that many bytes, and the next Step fetches the next byte.",
+                 "After an environment fault only totality is demanded (deliberately narrow). 'Unsupported' is decided dynamically from the captured log output of the Step. A Run that ignores cancellation ends the scenario without verdict (that is C13's subject). The real-goroutine watcher of Run makes the number of Steps after cancel() schedule dependent; nothing is compared after it.",
+                 "deterministic simulation: environment fault injection (degraded devices, malformed requests at chosen instants) + totality/recover oracle",
+                 "DESIGN.md 4 C12",
+                 "seeded hostile worlds: memory kind/length, io kind/length, IM, hostile patch at PC or at the top of memory, 0-3 malformed requests at boundaries or ticks; 1 in 4 driven by Run with a Step-driven twin and a tick budget; every scenario is non-trivial (distinct by fingerprint)",
+                 ["implementation's invalid-code warning contains the word 'invalid'"])
+
+PENDING = ["C10", "C13", "C18"]
 
 
 def chk(pid):
